@@ -19,6 +19,7 @@ import (
 	"sort"
 	"strconv"
 	"sync"
+	"sync/atomic"
 	"time"
 
 	app "github.com/Dash-Industry-Forum/livesim2/cmd/cmaf-ingest-receiver/app"
@@ -45,6 +46,12 @@ type Scenario struct {
 	// Receiving > 0: no HTTP; that many rounds in which the first track sends chunk messages to the channel
 	// goroutine while the other tracks register (and re-register), each round under a watchdog
 	Receiving int `json:"receiving,omitempty"`
+	// Gated: every request body stops half-way until all uploads of the phase are in flight (or 1.5 s passed)
+	Gated bool `json:"gated,omitempty"`
+	// Backlog: init and segments 1..3 of all tracks one after the other, then (concurrent run) the MPD mutex is
+	// held while segment 4 is sent (the channel goroutine stops at its next MPD) and segment 5 of all tracks is
+	// sent concurrently, so that more messages are outstanding than the channel's queue holds; then released
+	Backlog bool `json:"backlog,omitempty"`
 }
 
 type Outcome struct {
@@ -61,6 +68,67 @@ type Outcome struct {
 	// Register scenarios: number of rounds per (master, keys, trIDs) outcome
 	RegOutcomes map[string]int `json:"reg_outcomes,omitempty"`
 	Hangs       int            `json:"hangs,omitempty"` // Receiving scenarios: rounds that did not finish
+	// final per-track buffers (numbers) and latest published number of every channel
+	Buffers map[string]map[string][]uint32 `json:"buffers,omitempty"`
+	Latest  map[string]uint32              `json:"latest,omitempty"`
+}
+
+// gate: the bodies of all uploads of a phase stop half-way until all of them have got there
+type gate struct {
+	want int32
+	n    int32
+	ch   chan struct{}
+	once sync.Once
+}
+
+func newGate(want int) *gate {
+	g := &gate{want: int32(want), ch: make(chan struct{})}
+	time.AfterFunc(1500*time.Millisecond, g.open)
+	return g
+}
+func (g *gate) open() { g.once.Do(func() { close(g.ch) }) }
+func (g *gate) arrive() {
+	if atomic.AddInt32(&g.n, 1) >= g.want {
+		g.open()
+	}
+	<-g.ch
+}
+
+type gatedReader struct {
+	data   []byte
+	pos    int
+	g      *gate
+	passed bool
+}
+
+func (r *gatedReader) Read(p []byte) (int, error) {
+	half := len(r.data) / 2
+	if !r.passed && r.pos >= half {
+		r.passed = true
+		r.g.arrive()
+	}
+	if r.pos >= len(r.data) {
+		return 0, io.EOF
+	}
+	end := len(r.data)
+	if !r.passed {
+		end = half
+	}
+	n := copy(p, r.data[r.pos:end])
+	r.pos += n
+	return n, nil
+}
+
+func putGated(router http.Handler, url string, body []byte, auth bool, g *gate) int {
+	req := httptest.NewRequest(http.MethodPut, url, &gatedReader{data: body, g: g})
+	req.ContentLength = int64(len(body))
+	req.Header.Set("Content-Length", strconv.Itoa(len(body)))
+	if auth {
+		req.SetBasicAuth("user", "secret")
+	}
+	rr := httptest.NewRecorder()
+	router.ServeHTTP(rr, req)
+	return rr.Code
 }
 
 const testdata = "/repo/cmd/cmaf-ingest-receiver/app/testdata/"
@@ -145,15 +213,74 @@ func runOnce(si, round int, sc Scenario) Outcome {
 	var mu sync.Mutex
 	start := make(chan struct{})
 	var wg sync.WaitGroup
+	nUploads := len(sc.Channels) * len(sc.Tracks)
+	g1, g2 := newGate(nUploads), newGate(nUploads)
+	count := func(code int) {
+		mu.Lock()
+		out.Statuses[strconv.Itoa(code)]++
+		mu.Unlock()
+	}
+	if sc.Backlog {
+		chn := sc.Channels[0]
+		seg := func(tr Track, nr uint32) []byte { return segment(tr, nr) }
+		for _, tr := range sc.Tracks {
+			count(put(rcv.Router, fmt.Sprintf("/upload/%s/%s/init%s", chn, tr.Name, tr.Ext), inits[tr.Name], sc.Auth))
+		}
+		for nr := uint32(1); nr <= 3; nr++ {
+			for _, tr := range sc.Tracks {
+				count(put(rcv.Router, fmt.Sprintf("/upload/%s/%s/%d%s", chn, tr.Name, nr, tr.Ext), seg(tr, nr), sc.Auth))
+			}
+			rcv.Sync(chn)
+		}
+		release := func() {}
+		if !sc.Sequential {
+			release, _ = rcv.HoldMPD(chn)
+		}
+		for _, tr := range sc.Tracks {
+			count(put(rcv.Router, fmt.Sprintf("/upload/%s/%s/4%s", chn, tr.Name, tr.Ext), seg(tr, 4), sc.Auth))
+		}
+		bodies := map[string][]byte{}
+		for _, tr := range sc.Tracks {
+			bodies[tr.Name] = seg(tr, 5)
+		}
+		if sc.Sequential {
+			for _, tr := range sc.Tracks {
+				count(put(rcv.Router, fmt.Sprintf("/upload/%s/%s/5%s", chn, tr.Name, tr.Ext), bodies[tr.Name], sc.Auth))
+			}
+		} else {
+			for _, tr := range sc.Tracks {
+				wg.Add(1)
+				go func(tr Track) {
+					defer wg.Done()
+					<-start
+					count(put(rcv.Router, fmt.Sprintf("/upload/%s/%s/5%s", chn, tr.Name, tr.Ext), bodies[tr.Name], sc.Auth))
+				}(tr)
+			}
+			close(start)
+			time.Sleep(150 * time.Millisecond) // the uploads are in flight, their messages are outstanding
+			release()
+			wg.Wait()
+		}
+		start = make(chan struct{}) // not used any more
+	}
 	upload := func(chn string, tr Track) {
-		c1 := put(rcv.Router, fmt.Sprintf("/upload/%s/%s/init%s", chn, tr.Name, tr.Ext), inits[tr.Name], sc.Auth)
-		c2 := put(rcv.Router, fmt.Sprintf("/upload/%s/%s/1%s", chn, tr.Name, tr.Ext), segs[tr.Name], sc.Auth)
+		var c1, c2 int
+		if sc.Gated && !sc.Sequential {
+			c1 = putGated(rcv.Router, fmt.Sprintf("/upload/%s/%s/init%s", chn, tr.Name, tr.Ext), inits[tr.Name], sc.Auth, g1)
+			c2 = putGated(rcv.Router, fmt.Sprintf("/upload/%s/%s/1%s", chn, tr.Name, tr.Ext), segs[tr.Name], sc.Auth, g2)
+		} else {
+			c1 = put(rcv.Router, fmt.Sprintf("/upload/%s/%s/init%s", chn, tr.Name, tr.Ext), inits[tr.Name], sc.Auth)
+			c2 = put(rcv.Router, fmt.Sprintf("/upload/%s/%s/1%s", chn, tr.Name, tr.Ext), segs[tr.Name], sc.Auth)
+		}
 		mu.Lock()
 		out.Statuses[strconv.Itoa(c1)]++
 		out.Statuses[strconv.Itoa(c2)]++
 		mu.Unlock()
 	}
 	for _, chn := range sc.Channels {
+		if sc.Backlog {
+			break
+		}
 		for _, tr := range sc.Tracks {
 			if sc.Sequential {
 				upload(chn, tr)
@@ -167,10 +294,27 @@ func runOnce(si, round int, sc Scenario) Outcome {
 			}(chn, tr)
 		}
 	}
-	close(start)
+	if !sc.Backlog {
+		close(start)
+	}
 	wg.Wait()
 	for _, chn := range sc.Channels {
 		rcv.Sync(chn)
+	}
+	out.Buffers = map[string]map[string][]uint32{}
+	out.Latest = map[string]uint32{}
+	for _, chn := range sc.Channels {
+		if st, ok := rcv.ChannelState(chn); ok {
+			out.Latest[chn] = st.Gen.LatestSeqNr
+			out.Buffers[chn] = map[string][]uint32{}
+			for name, b := range st.Gen.Buffers {
+				var l []uint32
+				for i := 0; i < int(b.NrItems) && i < len(b.Items); i++ {
+					l = append(l, b.Items[i].SeqNr)
+				}
+				out.Buffers[chn][name] = l
+			}
+		}
 	}
 	time.Sleep(2 * time.Millisecond)
 	out.Goroutines = runtime.NumGoroutine() - before
